@@ -395,6 +395,54 @@ ths = [threading.Thread(target=run, args=(i, c)) for i, c in enumerate(chans)]
 """
 
 
+OPT_INITIATOR = r"""
+import sys, execnet
+sizes = [0, 1, 9, 70000]
+out = []
+group = execnet.Group()
+master = group.makegateway("popen//id=m")
+for spec in ("popen//python=%s//id=a" % sys.executable, "popen//via=m//id=b", "socket//installvia=m//id=c"):
+    try:
+        gw = group.makegateway(spec)
+        ch = gw.remote_exec("for i in range(%d): channel.send(channel.receive())" % len(sizes))
+        ok = True
+        for n in sizes:
+            ch.send(b"x" * n)
+            ok = ok and ch.receive(20) == b"x" * n
+        out.append((spec.split("//")[0] + ("/via" if "via=" in spec else ""), "ok" if ok else "corrupt"))
+    except BaseException as e:
+        out.append((spec, type(e).__name__ + ":" + str(e)[:80]))
+print(repr(out))
+sys.stdout.flush()
+import os
+os._exit(0)
+"""
+
+
+def optimized_initiator(ck):
+    """the initiating interpreter runs with -O (assert statements compiled away): the handshake byte of every bootstrap variant
+    must still be taken off the stream, or the first frame is decoded one byte off"""
+    import subprocess
+    import sys
+
+    from evh.common import REPO_SRC
+
+    ck.case(("optimized-initiator",), nontrivial=True)
+    ck.count("optimized_initiator_runs")
+    try:
+        p = subprocess.run([sys.executable, "-O", "-c", OPT_INITIATOR], env={**__import__("os").environ, "PYTHONPATH": REPO_SRC}, capture_output=True, text=True, timeout=150)
+        res = eval(p.stdout.strip().splitlines()[-1]) if p.stdout.strip() else [("no-output", p.stderr[-200:])]
+    except subprocess.TimeoutExpired:
+        res = [("all", "hangs")]
+    except Exception as e:  # noqa
+        ck.broke("correspondence", "optimized-initiator-harness", repr(e)[:200])
+        return
+    for spec, r in res:
+        if r != "ok":
+            ck.fail("frames-not-read-back-identically:initiator-under-O:" + str(spec)[:20], {"results": res})
+            break
+
+
 def real_gateways(ck, tier, only=None):
     """real gateways (popen, and a socket one installed through it): several OS threads send frames far larger than a pipe
     buffer at the same time on one connection, initiator -> worker and worker -> initiator; every item must arrive intact on
@@ -524,4 +572,6 @@ def main(tier, seed, replay=None):
         real_transports(ck, tier)
     if not replay or (replay.get("signature") or "").endswith("-gateway"):
         real_gateways(ck, tier)
-    return ck.finish(rule="generated message lists (all type bytes, ids over the signed 32-bit range incl. extremes, payloads 0..300 bytes and 64 KiB boundary sizes) x cut offsets x read-chunk oracles x {Popen2IO, SocketIO} read loops, plus every cut offset x uniform chunk size for two fixed streams; malformed streams with adversarial length fields; 2-4 concurrent senders through the real BaseGateway._send under the scheduler on buffered-file and piecewise-sendall transports. distinct = distinct (messages, cut, chunking, io) / (io, seed); non-trivial = at least one message.")
+    if not replay or "initiator-under-O" in (replay.get("signature") or ""):
+        optimized_initiator(ck)
+    return ck.finish(rule="generated message lists (all type bytes, ids over the signed 32-bit range incl. extremes, payloads 0..300 bytes and 64 KiB boundary sizes) x cut offsets x read-chunk oracles x {Popen2IO, SocketIO} read loops, plus every cut offset x uniform chunk size for two fixed streams; malformed streams with adversarial length fields; 2-4 concurrent senders through the real BaseGateway._send under the scheduler on buffered-file and piecewise-sendall transports; real gateways with large concurrent frames; an initiating interpreter under -O echoing payloads over popen//python=, via= and socket gateways (the bootstrap handshake byte must leave the stream). distinct = distinct (messages, cut, chunking, io) / (io, seed); non-trivial = at least one message.")
